@@ -1,17 +1,30 @@
 #!/bin/bash
-# Every findings/<ID>/{fixed,known}-*.json must FAIL on the original tree (pinned commit) and the fixed-* ones must PASS on /repo.
+# Every findings/<ID>/fixed-*.json must FAIL on the parent of the fix commit that KNOWN_FINDINGS.txt names for it (the
+# tree just before the repair) and PASS on /repo; known-*.json must fail on /repo's HEAD when replayed (a replay does
+# not tolerate known findings).  Replays that no KNOWN_FINDINGS line names are checked against the pinned original.
 # usage: tools/verify_regressions.sh [ID ...]
 cd "$(dirname "$(readlink -f "$0")")/.."
 ORIG=$(git -C /repo rev-list --max-parents=0 HEAD | tail -1)
 WT=/var/tmp/chf-orig-wt
-rm -rf $WT; git -C /repo worktree prune; git -C /repo worktree add -q --detach $WT $ORIG || exit 2
-trap 'git -C /repo worktree remove --force $WT; rm -rf /var/tmp/chf-verif-orig' EXIT
+trap 'git -C /repo worktree remove --force $WT 2>/dev/null; rm -rf /var/tmp/chf-verif-orig' EXIT
 ids=${@:-$(ls findings)}
 for p in $ids; do
   for f in findings/$p/*.json; do
     [ -f "$f" ] || continue
+    b=$(basename $f)
+    case "$b" in
+      known-*) base=HEAD;;
+      *) c=$(grep "^fixed: property=$p " KNOWN_FINDINGS.txt | grep -F "$b" | head -1 | awk '{print $3}')
+         [ -z "$c" ] && c=$(grep "^fixed: property=$p " KNOWN_FINDINGS.txt | grep -F "${b%.json}" | head -1 | awk '{print $3}')
+         if [ -n "$c" ]; then base="$c^"; else base=$ORIG; fi;;
+    esac
+    git -C /repo worktree remove --force $WT 2>/dev/null; git -C /repo worktree prune
+    git -C /repo worktree add -q --detach $WT $base || { echo "WORKTREE-FAILED $f $base"; continue; }
     o=$(VERIF_REPO=$WT VERIF_WORKROOT=/var/tmp/chf-verif-orig ./check $p --replay $f 2>&1 | grep -a "VIOLATION\|replay passes\|error" | head -1 | cut -c1-160)
-    case "$o" in VIOLATION*) r=ok;; *) r=NOT-FAILING-ON-ORIGINAL;; esac
-    echo "$r  $f  :: $o"
+    case "$o" in VIOLATION*) r=ok;; *) r=NOT-FAILING-BEFORE-FIX;; esac
+    r2=""
+    case "$b" in fixed-*) o2=$(./check $p --replay $f 2>&1 | grep -a "VIOLATION\|replay passes\|error" | head -1 | cut -c1-100)
+       case "$o2" in "replay passes"*) r2="passes-now";; *) r2="STILL-FAILING-NOW";; esac;; esac
+    echo "$r $r2 ($base)  $f  :: $o"
   done
 done
